@@ -30,9 +30,9 @@ func init() {
 			{"C08/framer-accepts", "a packet is handed to the packet loop as complete only with readHeader's verdict: type, size and payload of an accepting return of readMessage are readHeader's results", func(c *Ctx) { framerAcceptsThroughHeader(c, "C08/framer-accepts") }},
 			{"C08/read-limit", "the websocket connection carries no message size cap below the largest packet of the format", c08ReadLimit},
 			{"C08/transport-contract", "both ReadPacket implementations return n == len(p) (or 0 with an error)", c08TransportContract},
-			{"C08/transport-source", "a packet read is one whole transport read: one ReadMessage / one Read of the buffered chunked body", func(c *Ctx) {
-				transportRules(c, "C08/transport-source", false)
-				c.Floor("C08/transport-source", 3, "two reads, constructor")
+			{"C08/transport-source", "a packet read is one whole transport read (one ReadMessage / one Read of the buffered chunked body) and a packet write is one whole library write of the packet given, without a deadline that could leave a torn packet in front of the next one", func(c *Ctx) {
+				transportRules(c, "C08/transport-source", true)
+				c.Floor("C08/transport-source", 5, "two reads, constructor, two writes")
 			}},
 		},
 	})
@@ -146,8 +146,12 @@ func c08Remainder(c *Ctx) {
 	c.Floor(rule, 1, "accepting return of readHeader")
 }
 
-func c08BoundedCopy(c *Ctx) {
-	rule := "C08/bounded-copy"
+func c08BoundedCopy(c *Ctx) { boundedCopyAs(c, "C08/bounded-copy") }
+
+// boundedCopyAs: C08's bounded-copy rule, also registered as C06/fragment-store (a fragment
+// that is kept for reassembly is kept whole, or the bytes handed to the host are not the
+// bytes the client sent).
+func boundedCopyAs(c *Ctx, rule string) {
 	for _, name := range []string{"readMessage", "readHeader"} {
 		fn := c.Fn("cmd/rdpgw/protocol", name)
 		nFixed := 0
